@@ -164,13 +164,13 @@ class keymap(object):
             self._mark = (mark,)
         else: self._mark = None
 
-    def __call__(self, *args, **kwds):
+    def __call__(self, /, *args, **kwds):
         'generate a key from optionally typed positional and keyword arguments'
         if self.flat:
             return self.encode(*args, **kwds)
         return self.encrypt(*args, **kwds)
 
-    def encrypt(self, *args, **kwds):
+    def encrypt(self, /, *args, **kwds):
         """use a non-flat scheme for generating a key"""
         sorted_items = self._sorted(list(kwds.items()))
         # order of kwds must not depend on how the function was called
@@ -183,7 +183,7 @@ class keymap(object):
             return self.inner(key)
         return key
 
-    def encode(self, *args, **kwds):
+    def encode(self, /, *args, **kwds):
         """use a flattened scheme for generating a key"""
         key = args
         if kwds:
@@ -267,10 +267,10 @@ class hashmap(keymap):
         keymap.__init__(self, typed=typed, flat=flat, sentinel=sentinel, **kwds)
         self.__stub__ = 'algorithm' #XXX: unnecessary if unified kwd
         return
-    def encode(self, *args, **kwds):
+    def encode(self, /, *args, **kwds):
         """use a flattened scheme for generating a key"""
         return hash(keymap.encode(self, *args, **kwds), algorithm=self.__type__, **self._config)
-    def encrypt(self, *args, **kwds):
+    def encrypt(self, /, *args, **kwds):
         """use a non-flat scheme for generating a key"""
         return hash(keymap.encrypt(self, *args, **kwds), algorithm=self.__type__, **self._config)
 
@@ -306,10 +306,10 @@ class stringmap(keymap):
         keymap.__init__(self, typed=typed, flat=flat, sentinel=sentinel, **kwds)
         self.__stub__ = 'encoding' #XXX: unnecessary if unified kwd
         return
-    def encode(self, *args, **kwds):
+    def encode(self, /, *args, **kwds):
         """use a flattened scheme for generating a key"""
         return string(keymap.encode(self, *args, **kwds), encoding=self.__type__, **self._config)
-    def encrypt(self, *args, **kwds):
+    def encrypt(self, /, *args, **kwds):
         """use a non-flat scheme for generating a key"""
         return string(keymap.encrypt(self, *args, **kwds), encoding=self.__type__, **self._config)
 
@@ -348,10 +348,10 @@ class picklemap(keymap):
         keymap.__init__(self, typed=typed, flat=flat, sentinel=sentinel, **kwds)
         self.__stub__ = 'serializer' #XXX: unnecessary if unified kwd
         return
-    def encode(self, *args, **kwds):
+    def encode(self, /, *args, **kwds):
         """use a flattened scheme for generating a key"""
         return pickle(keymap.encode(self, *args, **kwds), serializer=self.__type__, **self._config) # separator=(',',':') for json
-    def encrypt(self, *args, **kwds):
+    def encrypt(self, /, *args, **kwds):
         """use a non-flat scheme for generating a key"""
         return pickle(keymap.encrypt(self, *args, **kwds), serializer=self.__type__, **self._config) # separator=(',',':') for json
 
